@@ -229,6 +229,7 @@ func checkC13(c *ctx) {
 	feats := map[string]int{}
 	discarded := 0
 	firstBadInput := ""
+	hazardOutcome := map[string]string{}
 	outcomes := map[string]int{}
 	for ci, cf := range cfgs {
 		if c.R.NumViolations() >= 8 {
@@ -357,6 +358,16 @@ func checkC13(c *ctx) {
 				c.R.Add(vc.Violation{Property: "C13", Case: caseName, Why: "the cff tool died with a Go panic on a type-correct input: " + firstLines(crashHead(p.run.Stderr), 3), Obs: obs, Witness: wit()})
 				continue
 			}
+			if p.Kind == "hazard" && ci == 0 {
+				switch {
+				case p.run.Exit != 0:
+					hazardOutcome[p.Feature] = "rejected with a diagnostic"
+				case compileErr[p.Rel] != "":
+					hazardOutcome[p.Feature] = "accepted, output does not compile"
+				default:
+					hazardOutcome[p.Feature] = "accepted"
+				}
+			}
 			if p.run.Exit != 0 {
 				outcomes["diagnostic"]++
 				if !posDiagRe.MatchString(p.run.Stderr) {
@@ -420,6 +431,7 @@ func checkC13(c *ctx) {
 		"packages_by_kind":                  feats,
 		"outcomes":                          outcomes,
 		"inputs_discarded_not_type_correct": discarded,
+		"hazard_outcomes_base_mode":         hazardOutcome,
 	}
 	writeEvidence(c, cov, []string{"inputs that do not type-check under the cff tag are generator bugs and are discarded (counted)", "residual-directive scan resolves the cff package through the file's import names"})
 }
